@@ -302,7 +302,7 @@ def finish(res, claim, t_start, extra_cov=None):
     try:
         from . import kani as kn
         v_units = sorted({o.get("unit") for o in res.obligations if o.get("backend") in (None, "verus") and o.get("unit")})
-        twin_units = kn.twins_for_units(v_units)
+        twin_units = kn.twins_for_units(v_units) + [u for u in kn.PROPERTY_TWINS.get(res.pid, []) if u in kn.TWINS]
         failed_units = {o.get("unit") for o in res.obligations if o["status"] == "failed" and o.get("backend") in (None, "verus")
                         and (res.pid, o["id"]) not in known_ids}
         want = twin_units if res.tier == "thorough" else [u for u in twin_units if u in failed_units]
